@@ -13,7 +13,7 @@ import (
 
 func init() {
 	register("C20", propMeta{
-		Explanation: "Decides how the caches are kept behind the authoritative stores: (R1) a node that is not in the transaction's own caches is resolved through the registry handle's active id, the process-wide MRU shortcut only before commit time and the L1 node cache only on an equal version (shared with C03.R2); (R2) every registry writer of the file-system registry refreshes or evicts what it wrote: Add and UpdateNoLocks touch the caches only after the disk write succeeded and then set L1 and L2 for the written handles, Update evicts L1 and L2 on a failed disk write and refreshes them on success, Remove evicts on every exit (deferred); (R3) positional contract: the callers of Registry.Get index the result in lock-step with the request, so every Registry.Get implementation in scope must return handles in request order: all appends to the result happen in loops over the requested ids and appends of different loops are separated by a reset of the result; (R4) the store repository refreshes the cached StoreInfo after every successful write of a store's metadata and evicts it before the store's folder is removed.",
+		Explanation: "Decides how the caches are kept behind the authoritative stores: (R1) a node that is not in the transaction's own caches is resolved through the registry handle's active id, the process-wide MRU shortcut only before commit time and the L1 node cache only on an equal version (shared with C03.R2); (R2) every registry writer of the file-system registry refreshes or evicts what it wrote: Add and UpdateNoLocks touch the caches only after the disk write succeeded and then set L1 and L2 for the written handles, Update evicts L1 and L2 on a failed disk write and refreshes them on success, Remove evicts on every exit (deferred); (R3) positional contract: the callers of Registry.Get index the result in lock-step with the request, so every Registry.Get implementation in scope must return handles in request order: all appends to the result happen in loops over the requested ids and appends of different loops are separated by a reset of the result; (R4) the store repository refreshes the cached StoreInfo after every successful write of a store's metadata and evicts it before the store's folder is removed; (R5) the per-process L1 handle cache (refreshed only by this process's own registry writes) is read by nothing but the pre-commit MRU shortcut of nodeRepositoryBackend.get - in particular no Registry.Get implementation serves handles from it.",
 		DoesNotCover: "Cross-process freshness of the time-based caches (L1 handle cache TTL, StoreInfo cache TTL), eviction at arbitrary moments and clustered-vs-standalone cache behaviour are runtime matters and are not decided; the value cache is covered only through C19.R4.",
 	}, runC20)
 }
@@ -280,6 +280,32 @@ func runC20(c *Ctx) {
 				"Registry.Get can return handles in an order other than the request's ("+detail+"); commitUpdatedNodes / commitRemovedNodes / areFetchedItemsIntact / the rollback functions pair result i with node i", nil)
 		}
 		c.Check(len(impls) >= 2, r3, "Registry.Get implementations found", token.NoPos, fmt.Sprintf("%d", len(impls)), "fewer than two implementations in scope", nil)
+	}
+
+	r5 := c.Rule("R5", "the per-process L1 handle cache is read only by the pre-commit MRU shortcut, never as a source for Registry.Get", 1)
+	{
+		hf := w.Field("cache", "L1Cache", "Handles")
+		var readers []string
+		for _, f := range w.allDeclared() {
+			if f.Pkg.PkgPath == modPrefix+"/cache" {
+				continue // the cache's own implementation
+			}
+			for _, cs := range w.AllSites(f) {
+				sel, ok := cs.Call.Fun.(*ast.SelectorExpr)
+				if !ok || sel.Sel.Name != "Get" || fieldOfSelector(f.Pkg.TypesInfo, sel.X) != hf {
+					continue
+				}
+				root := cs.In
+				for root.Parent != nil {
+					root = root.Parent
+				}
+				readers = append(readers, root.Key)
+			}
+		}
+		sort.Strings(readers)
+		readers = dedup(readers)
+		c.Check(sameSet(readers, "common.nodeRepositoryBackend.get"), r5, "readers of L1Cache.Handles outside package cache", token.NoPos, fmt.Sprintf("%v", readers),
+			fmt.Sprintf("the process-local handle cache is read by %v: it is refreshed only by this process's own registry writes, so serving registry lookups (or anything but the pre-commit MRU shortcut) from it returns handles another process has already replaced", readers), nil)
 	}
 
 	r4 := c.Rule("R4", "the store repository refreshes the cached StoreInfo after every successful metadata write and evicts it before removing the store", 3)
